@@ -835,6 +835,113 @@ def cases_representation(tier):
     return out
 
 
+# ------------------------------------------------- layered (1-D) simulations
+FN_LAY = 'mc.checks.c14_mapping:case_layered'
+
+
+def case_layered(c):
+    """Laterally averaged 1-D models and the data of layered simulations for
+    the same conductivities expressed in the six mappings; the gridding
+    options (from which the averaging radius is taken when none is given)
+    are stated in their own mapping `gmap`, the same for all six runs."""
+    import emg3d
+    case_, method, gmap = c['case'], c['method'], c['gmap']
+    shape = (8, 6, 5)
+    grid = emg3d.TensorMesh(
+        [np.ones(shape[0])*400., np.ones(shape[1])*400.,
+         np.array([600., 300., 300., 200., 400.])],
+        origin=(-1600., -1200., -1400.))
+    sx = zoo.cell_values(shape, 'rnd', 'x', 1e-2, 3.0)
+    sz = sx/zoo.cell_values(shape, 'rnd', 'z', 1.0, 3.0)
+    sx[..., -1] = sz[..., -1] = 1e-8
+    sx[..., -2] = sz[..., -2] = 3.0
+    sx[2:5, 1:4, 1:3] = 1e-3
+    survey = emg3d.Survey(
+        sources=emg3d.TxElectricDipole((-100., 50., -250., 20., 5.)),
+        receivers=[emg3d.RxElectricPoint((900., 100., -200., 0., 0.)),
+                   emg3d.RxMagneticPoint((-700., -300., -200., 90., 0.))],
+        frequencies=[0.5, 2.0])
+    gprops = [3.0, 0.25, 1e-8]
+    viol = []
+    out = {}
+    cmp_ = 0
+    with warnings.catch_warnings(), _quiet():
+        warnings.simplefilter('ignore')
+        for mp in MAPPINGS:
+            model = emg3d.Model(
+                grid, property_x=ref_forward(mp, sx),
+                property_z=None if case_ == 'isotropic' else
+                ref_forward(mp, sz), mapping=mp)
+            # (1) Model.extract_1d with an explicit ellipse
+            kw = {} if method in ('midpoint', ) else {
+                'ellipse': {'radius': 700., 'factor': 1.2, 'minor': 0.8}}
+            lay = {}
+            for merge in (False, True):
+                m1 = model.extract_1d(method, (-100., 50.), (900., 100.),
+                                      merge=merge, **kw)
+                lay[merge] = [ref_backward(mp, getattr(m1, k)).ravel()
+                              for k in ('property_x', 'property_z')
+                              if getattr(m1, k) is not None]
+                lay[merge].append(np.array(m1.grid.h[2]))
+            # (2) layered Simulation without a radius
+            gopts = {}
+            if gmap is not None:
+                gopts = {'properties': [float(ref_forward(gmap, np.array(v)))
+                                        for v in gprops], 'mapping': gmap}
+            lopts = {'method': method}
+            sim = emg3d.Simulation(survey.copy(), model, gridding='single',
+                                   gridding_opts=gopts, layered=True,
+                                   layered_opts=lopts, max_workers=1, verb=0,
+                                   tqdm_opts=False)
+            radius = sim.layered_opts.get('ellipse', {}).get('radius')
+            sim.compute()
+            out[mp] = (lay, radius, sim.data.synthetic.data.copy())
+    ref = out['Conductivity']
+    if gmap is not None and method != 'midpoint':
+        exp_r = 503.292121044*np.sqrt(1/0.25/0.5)
+        cmp_ += 1
+        if not abs(ref[1]/exp_r - 1) < 1e-6:
+            viol.append({'cls': 'layered-radius-not-skin-depth-of-gridding-'
+                                'property',
+                         'what': f'{c}: radius {ref[1]} for the Conductivity '
+                                 f'model, one skin depth is {exp_r}'})
+    for mp in MAPPINGS[1:]:
+        lay, radius, data = out[mp]
+        for merge in (False, True):
+            cmp_ += 1
+            a, b = lay[merge], ref[0][merge]
+            if len(a) != len(b) or any(
+                    x.shape != y.shape or not np.allclose(x, y, rtol=1e-10,
+                                                          atol=0)
+                    for x, y in zip(a, b)):
+                viol.append({'cls': 'extract-1d-depends-on-mapping',
+                             'what': f'{c}: merge={merge}: layer '
+                                     f'conductivities / thicknesses in {mp} '
+                                     'differ from the Conductivity model'})
+        cmp_ += 2
+        if (radius is None) != (ref[1] is None) or (
+                radius is not None and abs(radius/ref[1] - 1) > 1e-10):
+            viol.append({'cls': 'layered-radius-depends-on-mapping',
+                         'what': f'{c}: {mp}: radius {radius} vs {ref[1]}'})
+        err = np.max(np.abs(data - ref[2])/np.abs(ref[2]))
+        if not err < 1e-8:
+            viol.append({'cls': 'layered-data-depend-on-mapping',
+                         'what': f'{c}: {mp}: data differ by {err:.2e} from '
+                                 'the Conductivity model'})
+    return {'viol': viol, 'compared': cmp_, 'transitions': 18,
+            'nontrivial': True,
+            'outcome': (case_, method, str(gmap)[:2], bool(viol))}
+
+
+def cases_layered(tier):
+    out = []
+    for case_ in ('isotropic', 'VTI'):
+        for method in ('cylinder', 'prism', 'midpoint'):
+            for gmap in [None] + list(MAPPINGS):
+                out.append({'case': case_, 'method': method, 'gmap': gmap})
+    return out
+
+
 # ------------------------------------------------------------------------ run
 def prepare(ctx):
     impl.warm()
@@ -886,6 +993,14 @@ def run(ctx):
                          'view) x sign (log mappings): stored as float64, '
                          'same coefficients, later non-integer assignment '
                          'kept', time_cap=cap)
+    if ctx.wants('layered'):
+        ctx.explore('layered', FN_LAY, cases_layered(ctx.tier), engine='E1',
+                    rule='{isotropic, VTI} x {cylinder, prism, midpoint} x '
+                         'gridding-option mapping {none, 6 mappings}; per '
+                         'case the six model mappings: Model.extract_1d '
+                         '(merge off/on), the averaging radius derived by '
+                         'Simulation(layered=True), and the layered data',
+                    time_cap=cap)
     if ctx.wants('autogrid'):
         ctx.explore('autogrid', FN_GRID, cases_autogrid(ctx.tier),
                     engine='E1',
